@@ -110,9 +110,6 @@ func adam(f func(ConstVector) (MagicScalar, error), x0 ConstVector, step_size, b
     if gradient_is_nan(gradient) {
       return x1, fmt.Errorf("Gradient NaN value detected")
     }
-    if (constraints.Value != nil && !constraints.Value(x2)) {
-      return x1, fmt.Errorf("Constraints voilated")
-    }
     // execute hook if available
     if hook.Value != nil && hook.Value(x1, gradient, s) {
       break
@@ -134,6 +131,10 @@ func adam(f func(ConstVector) (MagicScalar, error), x0 ConstVector, step_size, b
     }
     beta1_t *= beta1
     beta2_t *= beta2
+    // accept the new position only if it satisfies the constraints
+    if (constraints.Value != nil && !constraints.Value(x2)) {
+      return x1, fmt.Errorf("Constraints voilated")
+    }
     x1.Set(x2)
   }
   return x1, nil
